@@ -170,7 +170,8 @@ def observe(workdir, tag, confs, norun=()):
             proj = norm_graph(txt)
         elif cmd.startswith("--raw run pipeline"):
             # stages run concurrently: what each command recorded (one atomic line each), as a multiset
-            proj = sorted((r["files"].get("out") or "").split("\n"))
+            # (by pattern: concurrent appends can glue lines together)
+            proj = sorted(re.findall(r"c\.\d+: .*?\|[^|\n]*\||inc9", r["files"].get("out") or "", re.S))
         elif cmd.startswith("--raw run task"):
             proj = (r["files"].get("out") or "", re.sub(r"in \d+(\.\d+)?(ns|µs|ms|s)|Duration[^\n]*|\d+(\.\d+)?(ns|µs|ms|s)\b", "<t>", txt))
         else:
